@@ -24,6 +24,15 @@
 //! objects, own slot), so nothing is de-duplicated there; counts are reported separately under
 //! `coverage.config_boundary` and added to `states` / `transitions`.
 //!
+//! A third scenario (`variants.rs`) is the BACKEND-VARIANT axis: the BFS and the boundary scenario
+//! use one backend value (`FriRecursionBackend::new(P2)`); here the smallest chain scenario (one
+//! base shape, base -> L -> L, A of the two depth-1 children, each cached and uncached) runs
+//! under every backend the constructors offer for this config - plain, and with the challenger's
+//! own Poseidon2 config registered as an "extra" table once / twice (documented no-ops) - through
+//! the same step functions and oracle, plus a differential clause against the plain backend.
+//! Counts: `coverage.backend_variants`, added to `states` / `transitions`. Its cases never enter
+//! the BFS registry; all its keys, labels and replays carry the variant name.
+//!
 //! ## Why states are de-duplicated by (shape ids, cache provenance/content, params) only
 //! The API functions are pure functions of their explicit arguments: config, backend and
 //! params are immutable values, there is no global or thread-local state in
@@ -59,6 +68,7 @@ mod boundary;
 mod engine;
 mod glue;
 mod objs;
+mod variants;
 
 use std::collections::{BTreeMap, BTreeSet, HashMap};
 use std::sync::Arc;
@@ -618,7 +628,16 @@ fn main() {
     // test-grade FRI parameters (new_testing, with blowup 2 instead of 4 to halve proving time)
     let mut fri = TEST_FRI;
     fri.log_blowup = 1;
-    let mk_env_with = |fri: FriParams| Env { cfg: make_cfg(&fri), backend: make_backend(), fri, params: params_alphabet(&fri, 3) };
+    let mk_env_with = |fri: FriParams| Env { cfg: make_cfg(&fri), backend: make_backend(), verifier_extra: vec![], fri, params: params_alphabet(&fri, 3) };
+    // environment of a backend variant (variants.rs): config, FRI parameters and params alphabet of
+    // the BFS, only the backend value (and the tables the native verifier registers) differ
+    let mk_venv = move |v: &variants::VariantSpec| Env {
+        cfg: make_cfg(&fri),
+        backend: make_backend_with(&v.extras),
+        verifier_extra: v.verifier_extra.clone(),
+        fri,
+        params: params_alphabet(&fri, 3),
+    };
     let mk_env = || mk_env_with(fri);
     // The config-boundary scenario keeps blowup 4 (`FriParameters::new_testing`): with a hiding PCS
     // the quotient of the degree-3 table constraints needs 4 chunks of the extended domain
@@ -672,6 +691,72 @@ fn main() {
             &report,
         );
     }
+    // ---- backend-variant scenario (see variants.rs) ------------------------------------------
+    // replay of one stored (variant, base) history: the variant and the variants it is compared with
+    if let Some(b) = replay_value.as_ref().and_then(|rp| rp.get("backend_variant")) {
+        let name = b["variant"].as_str().unwrap_or_else(|| machinery_error("bad backend_variant replay"));
+        let base = b["base"].as_str().unwrap_or_else(|| machinery_error("bad backend_variant replay")).to_string();
+        if !variants::all_variants().iter().any(|v| v.name == name) {
+            machinery_error(&format!("unknown backend variant {name} in replay"));
+        }
+        let specs = variants::select(Some(&[name]));
+        let run = variants::run(&specs, &[base], &mk_venv, &|| false).unwrap_or_else(|e| machinery_error(&e));
+        for s in &run.steps {
+            println!("step {}@{}: {}  =>  {} {}", s.step, s.variant, s.call, s.verdict.tag(), s.verdict.detail());
+        }
+        if let Some(e) = variants::machinery_problem(&run) {
+            machinery_error(&format!("backend-variant scenario, reference backend: {e}"));
+        }
+        for (size, k, what, rp) in variants::clauses(&run) {
+            report.violation_sized(k, what, rp, size);
+        }
+        let (ev, n) = variants::evidence(&run);
+        finish(
+            &ctx,
+            json!({"states": n.states, "transitions": n.transitions, "traces_validated_against_impl": n.transitions,
+                   "samples": ev["samples"], "mode": "replay", "backend_variants": ev}),
+            vec![],
+            &report,
+        );
+    }
+    // Like the boundary scenario: own thread, own small pool, concurrent with the BFS. Its
+    // histories are independent of the BFS's registry (nothing is registered in `World`).
+    let variant_specs: Vec<variants::VariantSpec> = match ctx.opt("variants") {
+        _ if replay_value.is_some() => vec![],
+        Some("0") => vec![],
+        Some(list) => {
+            let names: Vec<&str> = list.split(',').collect();
+            for n in &names {
+                if !variants::all_variants().iter().any(|v| v.name == *n) {
+                    machinery_error(&format!("unknown backend variant {n}"));
+                }
+            }
+            variants::select(Some(&names))
+        }
+        None => variants::select(None),
+    };
+    let variant_bases: Vec<String> = match ctx.opt("variant_bases") {
+        Some(l) => l.split(',').map(|s| s.to_string()).collect(),
+        None if ctx.quick() => vec!["B0".to_string()],
+        None => vec!["B0".to_string(), "U0".to_string(), "B1".to_string()],
+    };
+    let variant_thread = {
+        let specs = variant_specs.clone();
+        let bases = variant_bases.clone();
+        let (start, budget, thorough) = (ctx.start, ctx.budget, !ctx.quick());
+        std::thread::spawn(move || -> Result<Option<variants::VariantRun>, String> {
+            if specs.is_empty() {
+                return Ok(None);
+            }
+            let oot = move || start.elapsed().as_secs_f64() > 0.85 * budget.as_secs_f64();
+            let pool = vpcore::rayon::ThreadPoolBuilder::new()
+                .num_threads(if thorough { 16 } else { 8 })
+                .stack_size(64 << 20)
+                .build()
+                .map_err(|e| format!("cannot build the backend-variant thread pool: {e}"))?;
+            pool.install(|| variants::run(&specs, &bases, &mk_venv, &oot)).map(Some)
+        })
+    };
     // The scenario runs on its own thread AND its own small rayon pool, concurrently with the BFS
     // below: its histories are chains of dependent, mostly single-threaded calls (critical path
     // ~15 s, ~4 cores busy), which the BFS hides. A separate pool keeps the BFS's 1-2 s call tasks
@@ -1060,6 +1145,28 @@ fn main() {
         boundary_counts = n;
     }
 
+    // ---- backend-variant scenario: collect ---------------------------------------------------
+    let variant_run = variant_thread
+        .join()
+        .unwrap_or_else(|_| machinery_error("the backend-variant thread panicked"))
+        .unwrap_or_else(|e| machinery_error(&format!("backend-variant scenario: {e}")));
+    let mut variant_ev = Value::Null;
+    let mut variant_counts = variants::VariantCounts { transitions: 0, states: 0, compared: 0 };
+    if let Some(run) = &variant_run {
+        if let Some(e) = variants::machinery_problem(run) {
+            machinery_error(&format!("backend-variant scenario, reference backend: {e}"));
+        }
+        for (size, k, what, rp) in variants::clauses(run) {
+            report.violation_sized(k, what, rp, size);
+        }
+        if run.skipped_for_budget > 0 {
+            exhaustive = false;
+        }
+        let (ev, n) = variants::evidence(run);
+        variant_ev = ev;
+        variant_counts = n;
+    }
+
     for d in objs::CONVERSION_DEFECTS.lock().unwrap().iter() {
         violations.push((
             0,
@@ -1078,7 +1185,7 @@ fn main() {
 
     // ---- evidence --------------------------------------------------------------------------
     let bfs_transitions = w.order.len() as u64;
-    let transitions = bfs_transitions + boundary_counts.transitions;
+    let transitions = bfs_transitions + boundary_counts.transitions + variant_counts.transitions;
     let mut samples: Vec<Value> = vec![];
     let mut seen_tags = BTreeSet::new();
     for c in &w.order {
@@ -1129,11 +1236,12 @@ fn main() {
     }
     let total_secs: f64 = w.memo.values().map(|s| s.secs).sum();
     let coverage = json!({
-        "states": states_total as u64 + boundary_counts.states,
+        "states": states_total as u64 + boundary_counts.states + variant_counts.states,
         "transitions": transitions,
         "bfs_states": states_total,
         "bfs_transitions": bfs_transitions,
         "config_boundary": boundary_ev,
+        "backend_variants": variant_ev,
         "l_reuse_calls": reuse_ev,
         "traces_validated_against_impl": transitions,
         "state_graph_edges": edges,
@@ -1151,7 +1259,7 @@ fn main() {
         "shape_samples": w.shapes.iter().take(12).map(|s| json!({"label": s.label, "level": s.level, "L_circuit_counters": s.l_counters, "key_digest": format!("{:016x}", fnv64(s.key.as_bytes()))})).collect::<Vec<_>>(),
         "verdicts": histo.to_json(),
         "verdicts_by_call_class": class_histo.to_json(),
-        "cached_vs_uncached_pairs_compared": compared + boundary_counts.compared,
+        "cached_vs_uncached_pairs_compared": compared + boundary_counts.compared + variant_counts.compared,
         "collision_search": {"circuits_compared": searched, "counter_groups": by_counters.len(), "collisions": collisions},
         "cpu_s_in_calls": (total_secs * 10.0).round() / 10.0,
         "samples": samples,
